@@ -491,12 +491,14 @@ class SimulationAlgorithm(BaseSimulationAlgorithm):
         df_ind = df.copy()
 
         if self.visit_type == VisitType.DATAFRAME:
-            return (
-                self.param_study["df_visits"]
+            # (individuals are identified by strings, as in the table of individual parameters)
+            return {
+                str(id_): ages
+                for id_, ages in self.param_study["df_visits"]
                 .groupby("ID")["TIME"]
                 .apply(list)
-                .to_dict()
-            )
+                .items()
+            }
 
         df_ind["AGE_AT_BASELINE"] = (
             df_ind["tau"].apply(lambda x: x.numpy())
